@@ -20,6 +20,8 @@ import Scico.Proofs.JaxprExample
 import Scico.Proofs.JaxprScope
 import Mathlib.LinearAlgebra.Pi
 import Mathlib.LinearAlgebra.Matrix.ToLin
+import Mathlib.LinearAlgebra.Matrix.DotProduct
+import Mathlib.LinearAlgebra.Matrix.ConjTranspose
 
 namespace Scico.Props.C06
 open Scico.Jaxpr
@@ -135,6 +137,35 @@ theorem C06_matrix_of_linear {K : Type} [CommRing K] {n m : Nat} (f : (Fin n →
   refine ⟨LinearMap.toMatrix' (hf.mk' f), fun x => ?_, fun i j => ?_⟩
   · rw [← Matrix.toLin'_apply, Matrix.toLin'_toMatrix']; rfl
   · simp [LinearMap.toMatrix'_apply]
+
+end
+
+
+section
+open Matrix
+
+/-- **The derived adjoint is well defined (existence).**  A linear map `Kⁿ → Kᵐ` has an adjoint for the
+    pairing `⟨u,v⟩ = Σ conj(uᵢ) vᵢ`: multiplication by the conjugate transpose of its matrix, itself linear. -/
+theorem C06_adjoint_exists {K : Type} [CommRing K] [StarRing K] {n m : Nat} (f : (Fin n → K) → (Fin m → K))
+    (hf : IsLinearMap K f) :
+    ∃ g : (Fin m → K) → (Fin n → K), IsLinearMap K g ∧ ∀ x y, star (f x) ⬝ᵥ y = star x ⬝ᵥ g y := by
+  let M : Matrix (Fin m) (Fin n) K := LinearMap.toMatrix' (hf.mk' f)
+  have hM : ∀ x, f x = M *ᵥ x := fun x => by
+    rw [← Matrix.toLin'_apply, Matrix.toLin'_toMatrix']; rfl
+  refine ⟨fun y => Mᴴ *ᵥ y, ⟨fun y z => Matrix.mulVec_add _ _ _, fun c y => Matrix.mulVec_smul _ _ _⟩, fun x y => ?_⟩
+  rw [hM, Matrix.star_mulVec, Matrix.dotProduct_mulVec]
+
+/-- **… and unique**: two maps adjoint to the same `f` coincide (test against the standard basis). -/
+theorem C06_adjoint_unique {K : Type} [CommRing K] [StarRing K] {n m : Nat} (f : (Fin n → K) → (Fin m → K))
+    (g g' : (Fin m → K) → (Fin n → K))
+    (hg : ∀ x y, star (f x) ⬝ᵥ y = star x ⬝ᵥ g y) (hg' : ∀ x y, star (f x) ⬝ᵥ y = star x ⬝ᵥ g' y) : g = g' := by
+  funext y i
+  have h := (hg (Pi.single i 1) y).symm.trans (hg' (Pi.single i 1) y)
+  have key : ∀ v : Fin n → K, star (Pi.single i (1 : K) : Fin n → K) ⬝ᵥ v = v i := fun v => by
+    have : star (Pi.single i (1 : K) : Fin n → K) = Pi.single i 1 := by
+      funext j; by_cases hj : j = i <;> simp [hj]
+    rw [this, single_one_dotProduct]
+  rwa [key, key] at h
 
 end
 
